@@ -174,6 +174,52 @@ pub fn run(ctx: &Ctx) -> Outcome {
     // (4) huge string-length headers, in a subprocess
     let lens = length_headers(ctx);
 
+    // (5) wide documents: n sibling containers (n across the nesting limit of 256 and beyond) at
+    // the top level, inside a list and as dictionary values, followed by one nested container —
+    // siblings are not nesting, every one of these is well-formed
+    let ns: Vec<usize> = (1..=ctx.tier.pick(700usize, 3000usize)).collect();
+    let wide = core::par_map(&ns, |_| core::set_quiet_panics(true), |_, _, n| {
+        let mut bad = vec![];
+        let tail: &[u8] = b"ld1:kleee";
+        let rep = |unit: &[u8]| -> Vec<u8> { unit.iter().cloned().cycle().take(unit.len() * n).collect() };
+        let mut entries = vec![];
+        let mut entries_l = vec![];
+        for i in 0..*n {
+            let key = format!("{:04}", i);
+            entries.extend_from_slice(format!("4:{}de", key).as_bytes());
+            entries_l.extend_from_slice(format!("4:{}ld0:leee", key).as_bytes());
+        }
+        let docs: Vec<Vec<u8>> = vec![
+            [rep(b"de"), tail.to_vec()].concat(),
+            [rep(b"le"), tail.to_vec()].concat(),
+            [rep(b"dele"), tail.to_vec()].concat(),
+            [b"l".to_vec(), rep(b"de"), tail.to_vec(), b"e".to_vec()].concat(),
+            [b"l".to_vec(), rep(b"le"), tail.to_vec(), b"e".to_vec()].concat(),
+            [b"d".to_vec(), entries.clone(), b"4:zzzz".to_vec(), tail.to_vec(), b"e".to_vec()].concat(),
+            [b"d".to_vec(), entries_l.clone(), b"4:zzzz".to_vec(), tail.to_vec(), b"e".to_vec()].concat(),
+            [b"d1:al".to_vec(), rep(b"d1:xdee"), tail.to_vec(), b"ee".to_vec()].concat(),
+        ];
+        let k = docs.len() as u64;
+        for d in docs {
+            let (_, v) = compare(&d);
+            if let Some(v) = v {
+                if bad.len() < 2 {
+                    bad.push((v.class, format!("({} sibling containers) {}", n, &v.summary[..v.summary.len().min(200)]), d));
+                }
+            }
+        }
+        (k, bad)
+    });
+    let mut wide_docs = 0u64;
+    for (k, bad) in wide {
+        wide_docs += k;
+        for (class, summary, d) in bad {
+            ctx.violation(class, summary, json!({"kind": "input", "hex": core::hex(&d), "text": core::show(&d[..d.len().min(120)]), "origin": "wide"}));
+        }
+    }
+    total.evaluations += wide_docs;
+    total.ref_accepts += wide_docs;
+
     let mut samples = vec![];
     let mut buf = vec![];
     for i in ctx.seeded_pick(strings::total(max_len) as usize, 4) {
@@ -186,12 +232,13 @@ pub fn run(ctx: &Ctx) -> Outcome {
     let mut o = Outcome::new("exploration");
     o.set("evaluations", json!(total.evaluations));
     o.set("distinct_nontrivial", json!(total.ref_accepts));
-    o.set("rule", json!(format!("(1) every byte string over the alphabet {:?} of length 0..={} (all distinct); (2) every corpus document, each of its truncations and each single-position substitution by an alphabet symbol; (3) nesting ladder in subprocesses; (4) 18 huge / overflowing / zero-padded string-length headers in 6 positions (top level, inside a list, as dictionary value, in a tracker-like reply, with and without ':'), decoded in a subprocess. Non-trivial = inputs the reference recogniser accepts as a sequence of well-formed values (counted; for (1) they are distinct strings, (2) may repeat some).", String::from_utf8_lossy(strings::SIGMA), max_len)));
+    o.set("rule", json!(format!("(1) every byte string over the alphabet {:?} of length 0..={} (all distinct); (2) every corpus document, each of its truncations and each single-position substitution by an alphabet symbol; (3) nesting ladder in subprocesses; (4) 18 huge / overflowing / zero-padded string-length headers in 6 positions (top level, inside a list, as dictionary value, in a tracker-like reply, with and without ':'), decoded in a subprocess; (5) wide documents: n = 1..=700 (thorough 3000) sibling containers (dictionaries, lists, alternating) at the top level, inside a list, as dictionary values and inside a nested list, each followed by a nested container: all well-formed. Non-trivial = inputs the reference recogniser accepts as a sequence of well-formed values (counted; for (1) they are distinct strings, (2) may repeat some).", String::from_utf8_lossy(strings::SIGMA), max_len)));
     o.set("sigma_strings", json!(sigma_evals));
     o.set("mutation_inputs", json!(mutation_evals));
     o.set("corpus_documents", json!(docs.len()));
     o.set("disagreements_by_class", json!(total.violations));
     o.set("nesting_ladder", ladder);
+    o.set("wide_documents", json!(wide_docs));
     o.set("huge_length_headers", lens);
     o.set("samples", Value::Array(samples));
     o.set("exhaustive", json!(true));
